@@ -31,7 +31,17 @@ Inductive case :=
 | CaseChain (n_entries : N) (ps : list prefix) (r : remote) (path : N) (cached replied : bool) (resolver_calls : N)
   (* a burst of n high-amplification queries from one source through the same chain: was any
      of them answered; resolver invocations over the burst *)
-| CaseChainBurst (n_entries : N) (ps : list prefix) (r : remote) (n : N) (any_reply : bool) (resolver_calls : N).
+| CaseChainBurst (n_entries : N) (ps : list prefix) (r : remote) (n : N) (any_reply : bool) (resolver_calls : N)
+  (* the same chain with the per-client rate limit set to [rate] per minute: a flood of n cookie-less
+     queries for distinct cold names from one remote with a fresh bucket, faster than the refill:
+     how many were answered, resolver invocations *)
+| CaseChainFlood (n_entries : N) (ps : list prefix) (rate : N) (r : remote) (path n answered resolver_calls : N)
+  (* a flood of n sub-queries through the queryer (via 0) / prefetch queryer (via 1) that autoWire
+     injected into a handler of that chain (rate limit and reflex block mode on): how many answered *)
+| CaseSubFlood (via rate n answered : N)
+  (* one view covering the client, these records (owner as parsed, type), this question: the indices of
+     the records served, in order ([] = the view had no record and the query fell through) *)
+| CaseViewRecords (answers : list vrec) (qname : list N) (qtype : N) (served : list nat).
 
 Definition all_ok (ps : list prefix) : bool := forallb prefix_ok ps.
 
@@ -77,8 +87,40 @@ Definition spec_subquery (r : remote) : bool :=
   end.
 Definition spec_client_ip (r : remote) : option addr :=
   match r_kind r with KOther => None | _ => r_ip r end.
+Definition spec_loopback (a : addr) : bool :=
+  let u := unmap a in
+  if a_is4 u then (2130706432 <=? a_val u) && (a_val u <? 2147483648) else a_val u =? 1.
 Definition spec_allowed (ps : list prefix) (r : remote) : bool :=
   spec_subquery r || match spec_client_ip r with Some a => spec_contains ps a | None => false end.
+
+Fixpoint nats_eqb (a b : list nat) : bool :=
+  match a, b with
+  | [], [] => true
+  | x :: xs, y :: ys => (x =? y)%nat && nats_eqb xs ys
+  | _, _ => false
+  end.
+(* specification of the records a view serves, written without the model's loop: among the records of
+   the asked type whose owner covers the name — a plain owner covers exactly itself; "*.S" covers every
+   name strictly below S — the plain-owner ones if any, otherwise the wildcards with the longest owner *)
+Definition spec_is_wild (o : list N) : bool := match o with 42 :: 46 :: _ => true | _ => false end.
+Definition spec_covers (o q : list N) : bool :=
+  match o with
+  | 42 :: 46 :: s =>
+      (length s <? length q)%nat && go_list_eqb N.eqb (skipn (length q - length s) q) s &&
+      (nth (length q - length s - 1) q 0 =? 46)
+  | _ => go_list_eqb N.eqb o q
+  end.
+Definition spec_view_answer (answers : list vrec) (qname : list N) (qtype : N) : list nat :=
+  let q := go_canonical_name_ascii qname in
+  let idx := combine (seq 0 (length answers)) (map (fun rr => (go_canonical_name_ascii (fst rr), snd rr)) answers) in
+  let m := filter (fun p => (snd (snd p) =? qtype) && spec_covers (fst (snd p)) q) idx in
+  match filter (fun p => negb (spec_is_wild (fst (snd p)))) m with
+  | [] =>
+      let wl := filter (fun p => spec_is_wild (fst (snd p))) m in
+      let mx := fold_left Nat.max (map (fun p => length (fst (snd p))) wl) 0%nat in
+      map fst (filter (fun p => (length (fst (snd p)) =? mx)%nat) wl)
+  | ex => map fst ex
+  end.
 
 Fixpoint names_eqb (a b : list (list N)) : bool :=
   match a, b with
@@ -122,6 +164,14 @@ Definition check_case (c : case) : bool :=
       | AclNext => true
       | AclDrop => negb any_reply && (calls =? 0)
       end
+  | CaseChainFlood ne ps rate r path n answered calls =>
+      all_ok ps &&
+      match acl_serve_remote (new_set (acl_effective ne ps)) r with
+      | AclNext => (answered =? flood_answered rate n r) && (writer_internal r || (calls =? answered))
+      | AclDrop => (answered =? 0) && (calls =? 0)
+      end
+  | CaseSubFlood via rate n answered => answered =? sub_flood_answered handler_order via rate n
+  | CaseViewRecords answers qname qtype served => nats_eqb (view_answer answers qname qtype) served
   end.
 
 Definition spec_case (c : case) : bool :=
@@ -151,4 +201,16 @@ Definition spec_case (c : case) : bool :=
       if spec_allowed (acl_effective ne ps) r then replied else negb replied && (calls =? 0)
   | CaseChainBurst ne ps r n any_reply calls =>
       if spec_allowed (acl_effective ne ps) r then true else negb any_reply && (calls =? 0)
+  | CaseChainFlood ne ps rate r path n answered calls =>
+      (* a genuine sub-query is never limited; a denied source gets nothing; an admitted client with
+         a routable address is limited to its budget on every transport (loopback peers and peers
+         without an address are outside what the property states: answered in full) *)
+      if spec_subquery r then answered =? n
+      else if negb (spec_allowed (acl_effective ne ps) r) then (answered =? 0) && (calls =? 0)
+      else match spec_client_ip r with
+           | Some a => if negb (rate =? 0) && negb (spec_loopback a) then answered =? N.min n rate else answered =? n
+           | None => true
+           end
+  | CaseSubFlood via rate n answered => answered =? n
+  | CaseViewRecords answers qname qtype served => nats_eqb (spec_view_answer answers qname qtype) served
   end.
